@@ -39,7 +39,8 @@ def timer_table(ctx):
                 attr = n.ast.targets[0].attr
                 c = n.ast.value
                 h = c.args[1] if len(c.args) > 1 else None
-                table.setdefault(attr, []).append({"fn": fn, "node": n, "delay": norm.text(c.args[0]) if c.args else None,
+                from .common import canon_text as _ct
+                table.setdefault(attr, []).append({"fn": fn, "node": n, "delay": _ct(fn, c.args[0]) if c.args else None,
                                                    "handler": h.attr if is_self_attr(h) else None, "facts": mf.at(n)})
     # a timer armed inside a private helper is also armed at every statement `self._helper()` of the same class hierarchy: there the facts of
     # the call site hold in addition to the helper's own (minus what the helper writes) -- extracting the arming into a method changes nothing
@@ -322,13 +323,16 @@ def rule_ping_cycle(ctx):
         timers = []
         pos = [100]
 
+        def mk_timer(*args, **kw_):
+            t_ = Sym("timer", methods={"cancel": lambda: None}, delay=args[0] if args else None, handler=args[1] if len(args) > 1 else None)
+            timers.append(t_)
+            return t_
+
         def oracle(fname, args, kwargs=None):
             if fname.endswith("call_later"):
-                t_ = Sym("timer", methods={"cancel": lambda: None}, delay=args[0] if args else None, handler=args[1] if len(args) > 1 else None)
-                timers.append(t_)
-                return t_
+                return mk_timer(*args)
             if fname.endswith("struct.unpack"):
-                return [7]
+                return [7] * max(1, sum(1 for ch in str(args[0]) if ch.isalpha()))
             if fname.endswith("time_ns"):
                 return 10 ** 9
             if fname.endswith("struct.pack") or fname.endswith("urandom"):
@@ -338,7 +342,8 @@ def rule_ping_cycle(ctx):
         mk = lambda nm: Sym(nm, methods={"cancel": lambda: None})
         env = {"self": Sym("protocol"), "self.state": S_OPEN, "WebSocketProtocol.STATE_OPEN": S_OPEN, "self.autoPingInterval": 5, "self.autoPingTimeout": timeout,
                "self.autoPingSize": 16, "self.autoPingPendingSeq": 1, "self.autoPingPendingSent": 1, "self.log": Sym("log"),
-               "self.factory": Sym("factory", _batched_timer=Sym("batched-timer")), "self.autoPingRestartOnAnyTraffic": True,
+               "self.factory": Sym("factory", _batched_timer=Sym("batched-timer", call_later=Sym("call_later", methods={"__call__": mk_timer}))),
+               "self.autoPingRestartOnAnyTraffic": True,
                "self.autoPingPendingCall": mk("scheduled-ping") if pendingCall else None, "self.autoPingPending": P if pending else None,
                "self.autoPingTimeoutCall": mk("pong-timeout") if timeoutCall else None, "self.current_frame": Sym("frame", opcode=10),
                "self._sendAutoPing": Sym("method _sendAutoPing"), "self.onAutoPingTimeout": Sym("method onAutoPingTimeout"), "payload": payload}
